@@ -882,6 +882,13 @@ class Machine:
             return None
         if fname == "@vsprintf":
             return s.vsprintf(*args)
+        if fname == "@vsnprintf":
+            lim = args[1]
+            if z3.is_bv_value(lim):
+                lim = lim.as_long()
+            if not isinstance(lim, int):
+                raise Unsupported("vsnprintf with a symbolic size")
+            return s.vsprintf(args[0], args[2], args[3], limit=lim)
         if fname not in s.funcs:
             raise Unsupported("call to external " + fname)
         if s.in_arm:
@@ -900,14 +907,18 @@ class Machine:
             for r in allocas:  # stack memory dies with the frame
                 s.mem.pop(r, None)
 
-    def vsprintf(s, dst: Ptr, fmt: Ptr, ap: Ptr) -> Any:
+    def vsprintf(s, dst: Ptr, fmt: Ptr, ap: Ptr, limit: Optional[int] = None) -> Any:
         """appends *segments* to the JSON buffer of region dst.r: ('lit', text) |
-        ('num', conv, want_bits, arg_bits, term) | ('choice', cond, textA, textB)"""
+        ('num', conv, want_bits, arg_bits, term) | ('choice', cond, textA, textB).
+        limit (vsnprintf): at most limit-1 characters of this call are stored.  A call made of literals only is cut
+        exactly; a call with numeric conversions must fit even with 20-digit numbers, otherwise the cut would depend on
+        values (unsupported)."""
         if dst.r not in s.json:
             raise Unsupported("vsprintf into a buffer that is not the registered JSON buffer")
         va = list(s.valists[ap.r])
         txt = s.cstr(fmt)
-        seg = s.json[dst.r]
+        out_seg = s.json[dst.r]
+        seg: List[Any] = []
         pos = 0
         for mm in re.finditer(r"%(ll|l|h|hh)?([dusxc%])", txt):
             if mm.start() > pos:
@@ -932,6 +943,16 @@ class Machine:
                 raise Unsupported("vsprintf conversion %" + conv)
         if pos < len(txt):
             seg.append(("lit", txt[pos:]))
+        if limit is not None:
+            worst = 0
+            for g in seg:
+                worst += len(g[1]) if g[0] == "lit" else (max(len(g[2]), len(g[3])) if g[0] == "choice" else 21)
+            if worst >= limit:
+                if all(g[0] == "lit" for g in seg):
+                    seg = [("lit", "".join(g[1] for g in seg)[:max(limit - 1, 0)])]
+                else:
+                    raise Unsupported(f"vsnprintf: a call with conversions may exceed its size {limit}")
+        out_seg.extend(seg)
         s.undef_n += 1
         return z3.BitVec(f"vsprintf_len!{s.undef_n}", 32)
 
